@@ -307,10 +307,14 @@ def worker(job):
     try:
         if kind == 'single':
             R.explore(body_single(payload), 'single %s' % T.show(payload))
+        elif kind == 'history':
+            # the clauses of one code after the same functions were called for another code of the same template (cells of its own)
+            R.prime_body = body_single(payload)
+            R.explore(body_single(payload), 'single %s after another code of the template' % T.show(payload))
         else:
             R.explore(body_pair(*payload), 'pair %s | %s' % (T.show(payload[0]), T.show(payload[1])))
     except E.Budget as e:
-        res.inconclusive.append('%s %s: %s' % (kind, T.show(payload) if kind == 'single' else ' | '.join(map(T.show, payload)), e))
+        res.inconclusive.append('%s %s: %s' % (kind, T.show(payload) if kind != 'pair' else ' | '.join(map(T.show, payload)), e))
     return res
 
 
@@ -385,7 +389,15 @@ def run(chk, only=None):
         singles = [t for t in singles if only in T.show(t)]
         pairs = [p for p in pairs if only in T.show(p[0])][:20]
     budget = 120 if quick else 600
-    jobs = [('single', t, budget) for t in singles] + [('pair', p, budget) for p in pairs]
+    # history clause: the relay templates (leg count x leg distance with a unit) and a seeded sample of the others once more, after the
+    # same functions ran on another code of the same template
+    hist = [t for t in small if any(d == frozenset('xX') for d in t)]
+    rest = [t for t in small if t not in hist]
+    rng.shuffle(rest)
+    hist += rest[:40 if quick else 400]
+    if only:
+        hist = [t for t in hist if only in T.show(t)]
+    jobs = [('single', t, budget) for t in singles] + [('pair', p, budget) for p in pairs] + [('history', t, budget) for t in hist]
     rng.shuffle(jobs)
     chk.functions = ['athlib.utils.discipline_sort_key', 'athlib.utils._field_sort_order', 'athlib.utils.text_discipline_sort_key',
                      'athlib.utils.sort_by_discipline', 'athlib.utils.get_distance', 'athlib.utils.get_duration_event_time',
